@@ -7,6 +7,7 @@ when the run ends.
 """
 import fcntl
 import hashlib
+import gzip
 import json
 import os
 import shutil
@@ -111,19 +112,24 @@ def load(repo=None, features=(), use_cache=True):
     os.makedirs(CACHE, exist_ok=True)
     t0 = time.time()
     hsh = tree_hash(repo, features)
-    path = os.path.join(CACHE, "facts-%s.json" % hsh)
+    raw = os.path.join(CACHE, "facts-%s.json" % hsh)
+    path = raw + ".gz"          # the cache keeps the fact files compressed (10 MB -> under 1 MB each)
     lock_path = os.path.join(CACHE, "lock-%s" % hsh)
     generated = False
     with open(lock_path, "w") as lk:
         fcntl.flock(lk, fcntl.LOCK_EX)
         try:
             if not (use_cache and os.path.exists(path)):
-                generate(repo, path, features)
+                generate(repo, raw, features)
+                with open(raw, "rb") as fi, gzip.open(path + ".tmp", "wb", compresslevel=1) as fo:
+                    shutil.copyfileobj(fi, fo)
+                os.replace(path + ".tmp", path)
+                os.remove(raw)
                 generated = True
                 _prune_cache(keep=path)
         finally:
             fcntl.flock(lk, fcntl.LOCK_UN)
-    with open(path) as f:
+    with gzip.open(path, "rt") as f:
         facts = json.load(f)
     if facts.get("crate") != "raindb" or facts.get("n_bodies", 0) < 100:
         raise FactsError("fact file implausible: crate=%r bodies=%r" % (facts.get("crate"), facts.get("n_bodies")))
@@ -132,14 +138,20 @@ def load(repo=None, features=(), use_cache=True):
     return facts, meta
 
 
-def _prune_cache(keep, max_files=80):
+def _prune_cache(keep, max_files=600):
     try:
-        fs = [os.path.join(CACHE, f) for f in os.listdir(CACHE) if f.startswith("facts-") and f.endswith(".json")]
+        for f in os.listdir(CACHE):          # uncompressed files of earlier versions of this cache
+            if f.startswith("facts-") and f.endswith(".json"):
+                try:
+                    os.remove(os.path.join(CACHE, f))
+                except OSError:
+                    pass
+        fs = [os.path.join(CACHE, f) for f in os.listdir(CACHE) if f.startswith("facts-") and f.endswith(".json.gz")]
         fs.sort(key=lambda p: os.path.getmtime(p))
         for p in fs[:-max_files]:
             if p != keep:
                 os.remove(p)
-                lp = p.replace("facts-", "lock-").replace(".json", "")
+                lp = p.replace("facts-", "lock-").replace(".json.gz", "")
                 if os.path.exists(lp):
                     os.remove(lp)
     except OSError:
